@@ -73,7 +73,14 @@ ARG = {
     'SECTION': [b'BODY[]', b'BODY.PEEK[1.2.HEADER]<0.10>', b'BINARY.SIZE[1]'],
     'SECTION_OPEN': [b'BODY[1.', b'BODY[]<1', b'BODY[HEADER.FIELDS ('],
     'FETCHATT': [b'(UID FLAGS BODY.PEEK[HEADER.FIELDS (X)])', b'ALL', b'(ENVELOPE BODYSTRUCTURE)'],
-    'SEARCHKEY': [b'ALL', b'SEEN', b'FROM x'],
+    'SEARCHKEY': [b'ALL', b'SEEN', b'FROM x'] + [
+        # every key that takes an argument, with an octet >= 0x80 inside a quoted argument
+        k + b' "' + v + b'"' for k, v in
+        [(k, b'1-Jan-2020\xe9') for k in (b'BEFORE', b'ON', b'SINCE', b'SENTBEFORE', b'SENTON', b'SENTSINCE')]
+        + [(b'ON', b'1-J\xffan-2020'), (b'LARGER', b'1\xe9'), (b'UID', b'1\xe9'), (b'KEYWORD', b'k\xe9'),
+           (b'UNKEYWORD', b'k\xe9'), (b'HEADER "X-\xe9"', b'v'), (b'HEADER X', b'v\xe9'), (b'SUBJECT', b'\xe9'),
+           (b'BODY', b'\xff\xfe'), (b'TEXT', b'\xc3'), (b'FROM', b'\xe9'), (b'TO', b'\xe9'), (b'CC', b'\xe9'),
+           (b'BCC', b'\xe9'), (b'SMALLER', b'\xb2')]],
     'SEARCH_NESTED': [b'OR NOT SEEN (OR DELETED NOT ALL)', b'NOT NOT SEEN', b'(((((ALL)))))',
                       b'CHARSET X-UNKNOWN ALL',
                       b'OR ALL NOT ' * 450 + b'ALL',            # parses; deep for whatever walks it
@@ -206,7 +213,12 @@ HDRVAL = {
     'date_bad': [b'not a date', b'Mon, 99 Foo 99999 99:99:99 +9999', b'1 Jan 0001 00:00:00 -2359',
                  b'31 Dec 9999 23:59:59 +2359', b'1 Jan 2024 00:00:00 +010030'],
     'msgid': [b'<id1@example.com>', b'<a@b> <c@d>'],
-    'msgid_bad': [b'<unterminated', b'no brackets', b'<>', b'<a@b><c@d', b'<' + b'x' * 5000 + b'@y>'],
+    'msgid_bad': [b'<unterminated', b'no brackets', b'<>', b'<a@b><c@d', b'<' + b'x' * 5000 + b'@y>',
+                  # never closed, followed by a long run without '<' '>' '"': whatever tries every
+                  # way to split the run does not come back
+                  b'<CAF3q8w7k2Zr5Yv1mN0pLx9TbUeHdGsJ4.list@mail.example.com',
+                  b'<a@b> <' + b'y' * 80, b'<"a>b"@example.com>', b'<"never closed @example.com>' + b' z' * 40,
+                  b'<' * 60, b'<a@b' + b' ' * 60 + b'x'],
     'ct_multi': [b'multipart/mixed; boundary="BB"'],
     'ct_multi_nobound': [b'multipart/mixed', b'multipart/mixed; boundary=""', b'multipart/; boundary=BB'],
     'ct_rfc822': [b'message/rfc822', b'message/global'],
@@ -238,13 +250,29 @@ def _deep(inner: bytes, kind: str, depth: int) -> bytes:
     return body
 
 
-def concretise_hdr(triple, rng) -> bytes:
+# value classes written for particular headers: there EVERY representative is used
+HDRFITS = {'msgid': ('Message-ID', 'In-Reply-To', 'References'),
+           'addr': ('From', 'Sender', 'Reply-To', 'To', 'Cc', 'Bcc'),
+           'date': ('Date',), 'ct_': ('Content-Type',), 'cte_': ('Content-Transfer-Encoding',),
+           'disp': ('Content-Disposition',), 'lang': ('Content-Language',), 're_deep': ('Subject',),
+           'encword': ('Subject', 'From', 'To')}
+
+
+def hdr_variants(triple) -> int:
+    name, val, frame = triple
+    if frame == 'top' and any(val.startswith(k) and name in v for k, v in HDRFITS.items()):
+        return len(HDRVAL[val])
+    return 1
+
+
+def concretise_hdr(triple, rng, variant: int | None = None) -> bytes:
     """<<header name, value class, frame>> -> message bytes"""
     name, val, frame = triple
     if frame in ('deepmulti', 'deeprfc'):
         hdr = name.encode() + b': ' + rng.choice(HDRVAL[val]) + b'\r\n'
         return _deep(hdr + b'\r\nhello world\r\n', frame, rng.choice([60, 130, 260, 700]))
-    hdr = name.encode() + b': ' + rng.choice(HDRVAL[val]) + b'\r\n'
+    value = rng.choice(HDRVAL[val]) if variant is None else HDRVAL[val][variant % len(HDRVAL[val])]
+    hdr = name.encode() + b': ' + value + b'\r\n'
     inner = hdr + b'X-Test: value\r\n\r\nhello world\r\n'
     if name.startswith('Content-') or name == 'MIME-Version':
         # the body must make sense for the structured cases too
@@ -518,3 +546,78 @@ def run_line(w: World, state: str, chunks: list, *, service: str = 'imap', name:
         except Exception:
             pass
     return tr, hang
+
+
+DUO_MSGS = [b'Subject: one\r\nMessage-ID: <1@x>\r\n\r\nfirst\r\n',
+            b'Subject: two\r\nMIME-Version: 1.0\r\nContent-Type: multipart/mixed; boundary=B\r\n\r\n'
+            b'--B\r\nContent-Type: text/plain\r\n\r\nhello\r\n--B\r\nContent-Type: message/rfc822\r\n\r\n'
+            b'Subject: inner\r\n\r\nin\r\n--B--\r\n',
+            b'Subject: three\r\nIn-Reply-To: <1@x>\r\n\r\nthird\r\n']
+
+
+def run_duo(w: World, idx: int, script: list):
+    """Two connections of the same user, A and B, both with a mailbox of their own selected
+    (three messages; the second is a multipart with an encapsulated message).  script is a list
+    of (who, bytes): a command line without tag (the tag is added) or b'DONE'.  Everybody runs
+    after every line.  -> [(Transcript A, hang), (Transcript B, hang)]"""
+    box = b'D%d' % idx
+    na, nb = f'c{idx}A', f'c{idx}B'
+    ca = prepare(w, na, 'auth')
+    cb = prepare(w, nb, 'auth')
+    w.cmd(na, b'CREATE ' + box)
+    for m in DUO_MSGS:
+        w.cmd(na, b'APPEND ' + box + b' {%d+}\r\n' % len(m) + m)
+    w.cmd(na, b'SELECT ' + box)
+    w.cmd(nb, b'SELECT ' + box)
+    conns = {'A': (na, ca, Transcript()), 'B': (nb, cb, Transcript())}
+    for _n, c, tr in conns.values():
+        c.take()
+        tr.off = len(c.writer.out)
+    hang = False
+    try:
+        with Watchdog(6.0):
+            for i, (who, data) in enumerate(script):
+                name, c, tr = conns[who]
+                if c.done:
+                    continue
+                data = data.replace(b'%BOX%', box)
+                line = data + b'\r\n' if data == b'DONE' else b'%s%d ' % (who.encode(), i) + data + b'\r\n'
+                for _ in range(max(1, logical_lines(line))):
+                    tr.events.append({'e': 'in'})
+                w.send(name, line, run=False)
+                w.loop.settle(200000, max_vtime=w.loop.time() + 3)
+                for _n2, c2, tr2 in conns.values():
+                    tr2.absorb(c2)
+    except Hang:
+        hang = True
+    except Exception as exc:       # StepBudgetExceeded etc.
+        hang = True
+        conns['A'][2].note = repr(exc)
+    peer = True
+    if not hang:
+        try:
+            with Watchdog(3.0):
+                p = w.connect(na + 'p')
+                p.take()
+                peer = b' OK ' in w.cmd(na + 'p', b'NOOP')
+                p.eof()
+                w.run(na + 'p')
+        except Exception:
+            peer = False
+    out = []
+    for who in ('A', 'B'):
+        name, c, tr = conns[who]
+        oc = c.outcome()
+        exc = isinstance(oc, tuple)
+        if exc:
+            tr.exc = oc[1]
+        tr.events.append({'e': 'end', 'closed': bool(c.done or c.writer.closed), 'exc': exc,
+                          'hang': hang, 'eof': False, 'peer': bool(peer)})
+        if not c.done and not hang:
+            c.eof()
+            try:
+                w.run(name)
+            except Exception:
+                pass
+        out.append((tr, hang))
+    return out
